@@ -227,18 +227,31 @@ def _worker_main():  # pragma: no cover - runs in the subprocess
             from direct.data.transforms import fft2, ifft2
             from direct.nn.ssl.mri_models import JSSLMRIModelEngine, SSLMRIModelEngine
 
-            base = SSLMRIModelEngine if which == "ssl" else JSSLMRIModelEngine
-
             class Net(torch.nn.Module):
                 def __init__(self):
                     super().__init__()
                     self.w = torch.nn.Parameter(torch.zeros(1))
+                    self.seen = []
 
-            class Toy(base):
-                def forward_function(self, data):
-                    return None, data["_pred"] + self.model.w * 0
+                def forward(self, masked_kspace=None, sampling_mask=None, sensitivity_map=None):
+                    # vSHARP-style model: a list of images; the engines re-implement the training step around it
+                    self.seen.append((masked_kspace.detach().clone(), sampling_mask.detach().clone()))
+                    return [self._pred + self.w * 0]
 
-            eng = Toy(OmegaConf.structured(DefaultConfig), Net(), "cpu", forward_operator=fft2, backward_operator=ifft2)
+            if which.startswith("vsharp"):
+                from direct.nn.vsharp.vsharp_engine import VSharpNetJSSLEngine, VSharpNetSSLEngine
+
+                ident = lambda x, dim=None, **kw: x  # noqa: E731 - identity operators keep the integer probes exact
+                cls = VSharpNetSSLEngine if which == "vsharp_ssl" else VSharpNetJSSLEngine
+                eng = cls(OmegaConf.structured(DefaultConfig), Net(), "cpu", forward_operator=ident, backward_operator=ident)
+            else:
+                base = SSLMRIModelEngine if which == "ssl" else JSSLMRIModelEngine
+
+                class Toy(base):
+                    def forward_function(self, data):
+                        return None, data["_pred"] + self.model.w * 0
+
+                eng = Toy(OmegaConf.structured(DefaultConfig), Net(), "cpu", forward_operator=fft2, backward_operator=ifft2)
             eng.ndim = 2
             _toy[which] = eng
         return _toy[which]
@@ -307,6 +320,10 @@ def _worker_main():  # pragma: no cover - runs in the subprocess
             res["collated_k_shape"] = list(batch["input_kspace"].shape)
             batch["_pred"] = torch.stack([torch.tensor(p, dtype=torch.float32).reshape(kshape) for p in case["pred"]])
             eng = toy_engine(case["engine"])
+            if case["engine"].startswith("vsharp"):
+                # image-domain prediction (identity operators, unit sensitivities): coil 0 of the k-space prediction
+                eng.model._pred = batch["_pred"][:, 0]
+                del eng.model.seen[:]
             eng.model.train()
             rec = []
 
@@ -322,11 +339,54 @@ def _worker_main():  # pragma: no cover - runs in the subprocess
             res["loss_shape"] = [list(rec[0][0].shape), list(rec[0][1].shape)]
             res["loss_out"] = [fl(rec[0][0][b]) for b in range(rec[0][0].shape[0])]
             res["loss_ref"] = [fl(rec[0][1][b]) for b in range(rec[0][1].shape[0])]
+            if case["engine"].startswith("vsharp"):
+                mk_, mm_ = eng.model.seen[0]
+                res["model_in_k"] = [fl(mk_[b]) for b in range(mk_.shape[0])]
+                res["model_in_mask"] = [fl(mm_[b]) for b in range(mm_.shape[0])]
             res["engine_ok"] = True
         except Exception as e:  # noqa: BLE001
             res["engine_ok"] = False
             res["engine_err"] = f"{type(e).__name__}: {e}"[:300]
         return res
+
+    def run_engine_inputs(case):
+        """which keys the forward functions of the SSL / JSSL engines hand to the network (recording network, marker tensors)"""
+        import importlib
+
+        from omegaconf import OmegaConf
+
+        from direct.config.defaults import DefaultConfig
+
+        rec = []
+
+        class Net(torch.nn.Module):
+            def __init__(self):
+                super().__init__()
+                self.w = torch.nn.Parameter(torch.zeros(1))
+
+            def forward(self, masked_kspace=None, sampling_mask=None, sensitivity_map=None):
+                rec.append([int(masked_kspace.flatten()[0]), 0 if sampling_mask is None else int(sampling_mask.flatten()[0])])
+                return masked_kspace * 0
+
+        ident = lambda x, dim=None, **kw: x  # noqa: E731
+        rows = []
+        for mod, cls in case["sites"]:
+            eng = getattr(importlib.import_module(mod), cls)(OmegaConf.structured(DefaultConfig), Net(), "cpu",
+                                                              forward_operator=ident, backward_operator=ident)
+            eng.cfg = OmegaConf.create({"model": {"image_initialization": "zero_filled"}})
+            for train in (1, 0):
+                for ssl in (1, 0):
+                    eng.model.train(bool(train))
+                    data = {"input_kspace": torch.full((1, 1, 2, 2, 2), 1.0), "masked_kspace": torch.full((1, 1, 2, 2, 2), 2.0),
+                            "input_sampling_mask": torch.full((1, 1, 2, 2, 1), 3.0), "sampling_mask": torch.full((1, 1, 2, 2, 1), 4.0),
+                            "sensitivity_map": torch.full((1, 1, 2, 2, 2), 5.0), "is_ssl": torch.tensor([bool(ssl)])}
+                    del rec[:]
+                    try:
+                        eng.forward_function(data)
+                        rows.append([cls, train, ssl, "ok"] + (rec[0] if len(rec) == 1 else [-1, -1]))
+                    except Exception as e:  # noqa: BLE001
+                        rows.append([cls, train, ssl, type(e).__name__, -1, -1])
+        return {"rows": rows}
 
     def run_fullpipe(case):
         """supervised and SSL branches of the real build_mri_transforms on the same raw sample"""
@@ -367,15 +427,179 @@ def _worker_main():  # pragma: no cover - runs in the subprocess
                "input_cells": int(i.sum()), "target_cells": int(t.sum())}
         return res
 
+    # ---- call histories on persistent splitter objects -------------------------------------------------
+    import hashlib as _hl
+
+    _NN_INTERNAL = {"training", "_parameters", "_buffers", "_non_persistent_buffers_set", "_modules", "_backward_pre_hooks",
+                    "_backward_hooks", "_is_full_backward_hook", "_forward_hooks", "_forward_hooks_with_kwargs",
+                    "_forward_hooks_always_called", "_forward_pre_hooks", "_forward_pre_hooks_with_kwargs",
+                    "_state_dict_hooks", "_state_dict_pre_hooks", "_load_state_dict_pre_hooks",
+                    "_load_state_dict_post_hooks", "log"}
+
+    def _sig(v):
+        try:
+            if isinstance(v, np.random.RandomState):
+                st = v.get_state()
+                return "rng:" + _hl.sha1(st[1].tobytes() + repr(st[2:]).encode()).hexdigest()[:10]
+            if isinstance(v, torch.Tensor):
+                return f"tensor{tuple(v.shape)}:" + _hl.sha1(v.detach().cpu().numpy().tobytes()).hexdigest()[:10]
+            if isinstance(v, np.ndarray):
+                return f"ndarray{v.shape}:" + _hl.sha1(v.tobytes()).hexdigest()[:10]
+            if hasattr(v, "cache_info") and callable(v.cache_info):
+                return f"lru[{v.cache_info().currsize}]"
+            if isinstance(v, (dict, list, set, frozenset, tuple)) or hasattr(v, "__len__") and not isinstance(v, (str, bytes)):
+                return f"{type(v).__name__}[{len(v)}]:" + _hl.sha1(repr(v)[:20000].encode()).hexdigest()[:10]
+            return repr(v)[:80]
+        except Exception as e:  # noqa: BLE001
+            return f"?{type(e).__name__}"
+
+    def snapshot(objs):
+        """signature of everything a splitter could keep between calls: instance dicts, class attributes of the classes
+        of /repo in the MRO, module-level containers / memoised functions of the two anchored modules"""
+        import direct.ssl.mask_fillers as MF
+
+        out = {}
+        for n, (call, sp) in enumerate(objs):
+            for tag, o in ((f"inst{n}", sp),) + ((((f"wrap{n}", call),)) if call is not sp else ()):
+                for k, v in list(vars(o).items()):
+                    if k in _NN_INTERNAL or k == "_transform":
+                        continue
+                    out[f"{tag}.{k}"] = _sig(v)
+            for cls in type(sp).__mro__:
+                if not getattr(cls, "__module__", "").startswith("direct."):
+                    continue
+                for k, v in list(vars(cls).items()):
+                    if k.startswith("__") or k == "_abc_impl":
+                        continue
+                    if isinstance(v, (staticmethod, classmethod, property)) or (callable(v) and not hasattr(v, "cache_info")):
+                        continue
+                    out[f"class {cls.__name__}.{k}"] = _sig(v)
+        for mod in (S, MF):
+            for k, v in list(vars(mod).items()):
+                if k.startswith("__") or k == "gaussian_fill":
+                    continue
+                if isinstance(v, (dict, list, set)) or (hasattr(v, "cache_info") and callable(getattr(v, "cache_info"))):
+                    out[f"module {mod.__name__}.{k}"] = _sig(v)
+        return out
+
+    def hist_sample(case, smps, dims, batched):
+        H, W, C, Sl = case["nrow"], case["ncol"], case["C"], case.get("S", 1)
+        mshape = (1, 1, H, W, 1) if dims == 3 else (1, H, W, 1)
+        kshape = (C, Sl, H, W, 2) if dims == 3 else (C * Sl, H, W, 2)
+        ms = [torch.tensor(s["mask"], dtype=torch.bool).reshape(mshape) for s in smps]
+        ks = [torch.tensor(s["kspace"], dtype=torch.float32).reshape(kshape) for s in smps]
+        ac = [torch.tensor(s["acs"], dtype=torch.bool).reshape(mshape) for s in smps] if smps[0].get("acs") is not None else None
+        if batched:
+            sample = {"sampling_mask": torch.stack(ms), "masked_kspace": torch.stack(ks),
+                      "filename": [s["filename"] for s in smps], "slice_no": [s["slice_no"] for s in smps]}
+            if ac is not None:
+                sample["acs_mask"] = torch.stack(ac)
+        else:
+            sample = {"sampling_mask": ms[0], "masked_kspace": ks[0], "filename": smps[0]["filename"],
+                      "slice_no": smps[0]["slice_no"]}
+            if ac is not None:
+                sample["acs_mask"] = ac[0]
+        return sample, mshape, kshape
+
+    def hist_call(call, sp, case, smps, dims, batched, perturb):
+        np.random.seed(perturb % (2 ** 31))
+        torch.manual_seed(perturb)
+        libc.srand(perturb % (2 ** 31))
+        sp.rng.log = []
+        del calls[:]
+        sample, mshape, kshape = hist_sample(case, smps, dims, batched)
+        r = {"n": len(smps)}
+        try:
+            out = (sp if batched else call)(sample)
+            im, tm = out["input_sampling_mask"], out["target_sampling_mask"]
+            ik, tk = out["input_masked_kspace"], out["target_masked_kspace"]
+            if not batched:
+                im, tm, ik, tk = im[None], tm[None], ik[None], tk[None]
+            r["shape"] = [list(im.shape), list(tm.shape), list(ik.shape), list(tk.shape)]
+            r["want_shape"] = [[len(smps)] + list(mshape)] * 2 + [[len(smps)] + list(kshape)] * 2
+            fl = lambda x: [[int(v) for v in x[b].reshape(-1).tolist()] for b in range(x.shape[0])]  # noqa: E731
+            r["input"], r["target"], r["ink"], r["tgk"] = fl(im), fl(tm), fl(ik), fl(tk)
+            r["dtype"] = [str(im.dtype), str(tm.dtype)]
+            r["k_integral"] = bool((ik == ik.round()).all() and (tk == tk.round()).all())
+            r["ok"] = True
+        except Exception as e:  # noqa: BLE001
+            r.update(ok=False, err=type(e).__name__, msg=str(e)[:300])
+        r["calls"] = [dict(c) for c in calls]
+        r["log"] = list(sp.rng.log)
+        return r
+
+    def run_history(case):
+        def mk(icfg):
+            c = dict(icfg, level="pipeline" if icfg.get("via") == "pipeline" else "forward")
+            call, sp = build(c)
+            sp.rng = RecRS()
+            sp.rng.log = []
+            return call, sp
+
+        objs = [mk(i) for i in case["insts"]]
+        p0 = int(case.get("perturb", 1))
+        res = {"steps": [], "state_changed": []}
+        snap0 = snapshot(objs)
+        for n, st in enumerate(case["steps"]):
+            call, sp = objs[st["inst"]]
+            icfg = case["insts"][st["inst"]]
+            smps = [case["pool"][j] for j in st["samples"]]
+            batched = bool(st.get("batched", True)) or icfg.get("via") != "pipeline"
+            r = hist_call(call, sp, case, smps, st.get("dims", 2), batched, p0 + 7919 * n)
+            if icfg["kind"] == "half" and icfg.get("dir", "").startswith("diagonal"):
+                r["xs"] = [list(float(v).as_integer_ratio()) for v in torch.linspace(-1, 1, case["nrow"]).tolist()]
+                r["ys"] = [list(float(v).as_integer_ratio()) for v in torch.linspace(-1, 1, case["ncol"]).tolist()]
+            # reference: a fresh object that has seen nothing, one sample at a time
+            fresh = {"input": [], "target": [], "ok": True}
+            if icfg["use_seed"] or icfg["kind"] == "half":
+                for s in smps:
+                    fc, fs = mk(icfg)
+                    fr = hist_call(fc, fs, case, [s], st.get("dims", 2), True, p0 + 104729 * n + 1)
+                    if not fr["ok"]:
+                        fresh = {"ok": False, "err": fr["err"], "msg": fr.get("msg")}
+                        break
+                    fresh["input"] += fr["input"]
+                    fresh["target"] += fr["target"]
+                r["fresh"] = fresh
+            snap = snapshot(objs)
+            ch = sorted(k for k in set(snap) | set(snap0) if snap.get(k) != snap0.get(k))
+            r["state_changed"] = ch
+            for k in ch:
+                if k not in res["state_changed"]:
+                    res["state_changed"].append(k)
+            snap0 = snap
+            res["steps"].append(r)
+        return res
+
     def run_case(case):
         t0 = time.time()
         try:
-            if case["level"] == "f32":
+            if case["level"] == "history":
+                res = run_history(case)
+            elif case["level"] == "ctor":
+                got = []
+                for rs in case["ratios"]:
+                    vals = [p / q for p, q in rs]
+                    row = []
+                    for cls in (S.GaussianMaskSplitterModule, S.UniformMaskSplitterModule):
+                        for arg in ([vals[0]] if len(vals) == 1 else []) + [list(vals), tuple(vals)]:
+                            try:
+                                cls(ratio=arg)
+                                row.append("ok")
+                            except Exception as e:  # noqa: BLE001
+                                row.append(type(e).__name__)
+                    got.append(row)
+                res = {"got": got}
+            elif case["level"] == "hashseed":
+                res = {"hashseed": os.environ.get("PYTHONHASHSEED"), "probe": hash(("file1.h5", 3)) % 1000003}
+            elif case["level"] == "f32":
                 import math as _m
                 res = {"counts": [[int(_m.ceil(torch.tensor(S_) * (p / q))), int(torch.count_nonzero(torch.ones(S_)) * (p / q))]
                                   for S_, p, q in case["pairs"]]}
             elif case["level"] == "engine":
                 res = run_engine(case)
+            elif case["level"] == "engine_inputs":
+                res = run_engine_inputs(case)
             elif case["level"] == "fullpipe":
                 res = run_fullpipe(case)
             else:
@@ -406,16 +630,32 @@ def _worker_main():  # pragma: no cover - runs in the subprocess
 class _Worker:
     """One subprocess running the real code; every call has a deadline."""
 
-    def __init__(self):
+    def __init__(self, hashseed: str | None = None):
         self.proc = None
         self.ext = {}
         self.restarts = 0
+        self.hashseed = hashseed       # PYTHONHASHSEED of the interpreter (None: inherited / random)
+        self.greeted = False
+
+    def spawn(self):
+        """start the interpreter without waiting for it (a fresh process, as a spawned data-loader worker or a resumed
+        run would be)"""
+        if self.proc is not None and self.proc.poll() is None:
+            return
+        code = (f"import sys; sys.path.insert(0, {str(HARNESS)!r}); import props.c11 as m; m._worker_main()")
+        env = dict(os.environ)
+        if self.hashseed is not None:
+            env["PYTHONHASHSEED"] = self.hashseed
+        self.proc = subprocess.Popen([sys.executable, "-u", "-c", code], stdin=subprocess.PIPE, stdout=subprocess.PIPE,
+                                     stderr=subprocess.DEVNULL, cwd=str(HARNESS), bufsize=0, env=env)
+        self.greeted = False
 
     def _start(self):
-        code = (f"import sys; sys.path.insert(0, {str(HARNESS)!r}); import props.c11 as m; m._worker_main()")
-        self.proc = subprocess.Popen([sys.executable, "-u", "-c", code], stdin=subprocess.PIPE, stdout=subprocess.PIPE,
-                                     stderr=subprocess.DEVNULL, cwd=str(HARNESS), bufsize=0)
-        hello = self._read(120.0)
+        self.spawn()
+        if self.greeted:
+            return
+        hello = self._read(180.0)
+        self.greeted = True
         if hello is None or not hello.get("ready"):
             self.close()
             raise ToolFailure("C11 worker did not start (cannot import the implementation?)")
@@ -443,7 +683,7 @@ class _Worker:
         if self.restarts >= 3 and case.get("kind") == "gauss":
             # the hang is established (three watchdog kills); do not spend 20 s on every further Gaussian case
             return {"ok": False, "err": "Skipped", "msg": "skipped after repeated hangs", "calls": [], "log": []}
-        if self.proc is None or self.proc.poll() is not None:
+        if self.proc is None or self.proc.poll() is not None or not self.greeted:
             self._start()
         self.proc.stdin.write((json.dumps(case) + "\n").encode())
         self.proc.stdin.flush()
@@ -467,10 +707,14 @@ class _Worker:
                 except Exception:  # noqa: BLE001
                     pass
         self.proc = None
+        self.greeted = False
 
 
-_W = _Worker()
+_W =_Worker(hashseed="101")
+_W2 = _Worker(hashseed="2024")     # a second interpreter with another hash salt: determinism must hold across processes
 _RESULTS: list[tuple[dict, dict]] = []   # (case, result) of the correspondence phase, re-used by the oracle
+_HIST: list[tuple[dict, dict]] = []      # (history, result) of the correspondence phase
+_CTOR: dict = {}
 
 
 # ==================================================================================================
@@ -855,6 +1099,11 @@ def _gen_engine_case(rng, kind: str, dims: int, level: str = "engine") -> dict:
             "pred": [[rng.randint(10, 19) for _ in range(n)] for _ in range(B)]}
     if kind == "half":
         case["dir"], case["ratios"] = rng.choice(DIRS), [(1, 2)]
+    if level == "engine" and dims == 2 and rng.random() < 0.4:
+        # the vSHARP SSL / JSSL engines re-implement the training step: image-domain prediction, the same for every coil
+        case["engine"] = rng.choice(["vsharp_ssl", "vsharp_jssl"])
+        per = H * W * 2
+        case["pred"] = [p[:per] * C for p in case["pred"]]
     if level == "fullpipe":
         case["nrow"], case["ncol"], case["B"] = rng.choice([10, 12, 13]), rng.choice([12, 15, 16]), 1
         for k in ("masks", "acs", "kspace", "pred"):
@@ -911,6 +1160,9 @@ def _check_engine(case, res):
         yield (tag or "ssl-engine-step-raises", f"training step on the collated batch raises {res.get('engine_err')}")
         return
     tag = None
+    if "model_in_k" in res and (res["model_in_k"] != res["ink"] or res["model_in_mask"] != res["input"]):
+        yield ("ssl-engine-model-input", f"{case['engine']} engine, training: the network is not given the masked k-space "
+               "restricted to the input mask together with the input mask")
     for b in range(B):
         out, ref = _engine_spec(case, res, b)
         if res["loss_ref"][b] != ref:
@@ -936,6 +1188,175 @@ def _check_fullpipe(case, res):
     if res["mask_shape"] != res["orig_mask_shape"]:
         yield ("ssl-split-mask-rank-3d" if three else "ssl-split-mask-shape",
                f"split masks have shape {res['mask_shape']}, the sampling mask {res['orig_mask_shape']}")
+
+
+# ==================================================================================================
+# call histories on persistent splitter objects (state kept between calls, batched vs single calls, interleaved objects)
+HIST_PATTERNS = ["same-key-new-mask", "same-mask-new-file", "repeat", "batched-vs-single", "many-keys-then-revisit",
+                 "same-key-new-acs", "random", "random"]
+
+
+def _gen_inst(rng, kind: str, keep=None, via=None) -> dict:
+    keep = (rng.random() < 0.3) if keep is None else keep
+    d = {"kind": kind, "keep": int(keep), "a": rng.choice([[0, 0], [2, 2], [2, 4], [3, 3], [4, 2]]),
+         "use_seed": 1 if rng.random() < 0.85 else 0, "std": 3.0,
+         "ratios": [rng.choice(RATIOS)] if rng.random() < 0.8 else [rng.choice(RATIOS) for _ in range(2)],
+         "via": via or rng.choice(["module", "module", "pipeline"])}
+    if kind == "half":
+        d["dir"], d["ratios"] = rng.choice(DIRS), [(1, 2)]
+    return d
+
+
+def _gen_history(rng, pattern: str, kinds=("gauss", "uniform", "half")) -> dict:
+    H, W = rng.randint(6, 11), rng.randint(6, 12)
+    three = rng.random() < 0.3
+    C, Sl = rng.choice([1, 2]), (rng.choice([1, 2]) if three else 1)
+    if pattern == "same-key-new-acs":
+        insts = [_gen_inst(rng, rng.choice(kinds), keep=True)]
+    else:
+        n_inst = rng.choice([1, 1, 2, 3])
+        insts = [_gen_inst(rng, rng.choice(kinds)) for _ in range(n_inst)]
+        if n_inst >= 2 and rng.random() < 0.5:      # two objects of the same class and configuration: class-level state
+            insts[1] = dict(insts[0])
+    with_acs = any(i["keep"] for i in insts)
+    names = [_name(rng) for _ in range(3)]
+    if rng.random() < 0.3:
+        names[1] = names[0] + "1"                    # "vol7" slice 12 and "vol71" slice 2 share their concatenation
+    slices = [rng.randrange(0, 40), rng.randrange(0, 300)]
+    mtype = rng.choice(["line", "2d", "2d", "sparse", "full"])
+
+    def block(h, w):
+        r0, c0 = H // 2 - h // 2, W // 2 - w // 2
+        return [1 if (c0 <= k % W < c0 + w and (mtype == "line" or r0 <= k // W < r0 + h)) else 0 for k in range(H * W)]
+
+    acs_a, acs_b = block(2, 2), block(rng.choice([3, 4]), rng.choice([3, 4]))
+    bases = []
+    while len(bases) < 3:
+        m = _gen_mask(rng, H, W, mtype if len(bases) < 2 else rng.choice(["2d", "line"]))
+        if with_acs:
+            m = [x | a | b for x, a, b in zip(m, acs_a, acs_b)]
+        if m not in bases or mtype == "full":
+            bases.append(m)
+        if mtype == "full" and len(bases) == 1:
+            mtype = "2d"
+    variants = [(bases[0], acs_a), (bases[1], acs_a), (bases[2], acs_a), (bases[0], acs_b)]
+    pool, index = [], {}
+
+    def smp(f, s, v):
+        key = (f, s, v)
+        if key not in index:
+            m, a = variants[v]
+            k = []
+            for _ in range(C * Sl):
+                for cell in range(H * W):
+                    k += [rng.randint(-4, 4) * m[cell], rng.randint(1, 4) * m[cell]]
+            index[key] = len(pool)
+            pool.append({"filename": names[f], "slice_no": slices[s], "mask": m, "acs": a if with_acs else None, "kspace": k,
+                         "variant": v})
+        return index[key]
+
+    if pattern == "same-key-new-mask":
+        groups = [[smp(0, 0, 0)], [smp(0, 0, 1)], [smp(0, 0, 0)], [smp(0, 0, 2)]]
+    elif pattern == "same-mask-new-file":
+        groups = [[smp(0, 0, 0)], [smp(1, 0, 0)], [smp(0, 1, 0)], [smp(2, 1, 0)], [smp(0, 0, 0)]]
+    elif pattern == "repeat":
+        groups = [[smp(0, 0, 0)]] * 3
+    elif pattern == "batched-vs-single":
+        groups = [[smp(0, 0, 0), smp(1, 0, 1), smp(2, 1, 2)], [smp(0, 0, 0)], [smp(1, 0, 0)], [smp(2, 1, 2)],
+                  [smp(2, 1, 1), smp(0, 0, 2)]]
+    elif pattern == "many-keys-then-revisit":
+        groups = [[smp(f, s, 0)] for f in range(3) for s in range(2)] + [[smp(0, 0, 1)], [smp(2, 1, 2)]]
+    elif pattern == "same-key-new-acs":
+        groups = [[smp(0, 0, 0)], [smp(0, 0, 3)], [smp(0, 0, 0)], [smp(1, 0, 3), smp(0, 0, 3)]]
+    else:
+        groups = [[smp(rng.randrange(3), rng.randrange(2), rng.randrange(4 if with_acs else 3)) for _ in range(rng.choice([1, 1, 2, 3]))]
+                  for _ in range(rng.randint(4, 7))]
+    mixed = (not three) and rng.random() < 0.2
+    steps = [{"inst": rng.randrange(len(insts)), "samples": g, "batched": int(len(g) > 1 or rng.random() < 0.5),
+              "dims": 3 if (three or (mixed and rng.random() < 0.5)) else 2} for g in groups]
+    return {"level": "history", "kind": "history", "pattern": pattern, "nrow": H, "ncol": W, "C": C, "S": Sl, "mtype": mtype,
+            "insts": insts, "pool": pool, "steps": steps, "perturb": rng.randrange(1, 10 ** 6)}
+
+
+def _hist_views(case, res, only_inst=None):
+    """per step (or, with `only_inst`, for all steps of one object concatenated): the pseudo forward case and result
+    that `_check` / `_protocol` understand"""
+    H, W, Cc = case["nrow"], case["ncol"], case["C"] * case.get("S", 1)
+    out = []
+    acc = None
+    for n, (st, r) in enumerate(zip(case["steps"], res.get("steps", []))):
+        if only_inst is not None and st["inst"] != only_inst:
+            continue
+        icfg = case["insts"][st["inst"]]
+        smps = [case["pool"][j] for j in st["samples"]]
+        pc = {"kind": icfg["kind"], "level": "forward", "nrow": H, "ncol": W, "B": len(smps), "C": Cc, "mtype": case["mtype"],
+              "masks": [s["mask"] for s in smps], "acs": [s["acs"] for s in smps] if icfg["keep"] else None,
+              "keep": icfg["keep"], "a": icfg["a"], "ratios": icfg["ratios"], "use_seed": icfg["use_seed"], "twice": 0,
+              "std": icfg.get("std", 3.0), "filename": [s["filename"] for s in smps], "slice_no": [s["slice_no"] for s in smps],
+              "kspace": [s["kspace"] for s in smps], "dims": st.get("dims", 2), "step": n}
+        if "dir" in icfg:
+            pc["dir"] = icfg["dir"]
+        pr = dict(r)
+        if r.get("ok") and r.get("shape") == r.get("want_shape"):
+            pr["shape"] = [[len(smps), 1, H, W, 1]] * 2 + [[len(smps), Cc, H, W, 2]] * 2
+        if only_inst is None:
+            out.append((pc, pr))
+            continue
+        if acc is None:
+            acc = (pc, pr)
+            for k in ("input", "target", "ink", "tgk", "calls", "log"):
+                pr[k] = list(pr.get(k) or [])
+        else:
+            apc, apr = acc
+            for k in ("masks", "filename", "slice_no", "kspace"):
+                apc[k] = apc[k] + pc[k]
+            if apc["acs"] is not None:
+                apc["acs"] = apc["acs"] + pc["acs"]
+            apc["B"] += pc["B"]
+            for k in ("input", "target", "ink", "tgk", "calls", "log"):
+                apr[k] = apr[k] + list(pr.get(k) or [])
+            apr["ok"] = bool(apr.get("ok") and pr.get("ok"))
+            apr["k_integral"] = bool(apr.get("k_integral", True) and pr.get("k_integral", True))
+    return out if only_inst is None else ([acc] if acc else [])
+
+
+def _check_history(case, res):
+    """the property on every call of a history + independence of everything the object was asked before"""
+    if res.get("err") == "Timeout":
+        yield ("splitter-history-hang", f"a call history on persistent splitter objects did not return within {WATCHDOG_S} s")
+        return
+    if "steps" not in res:
+        yield (f"splitter-history-raises-{res.get('err')}", f"running a call history raises {res.get('err')}: {res.get('msg', '')[:160]}")
+        return
+    for pc, pr in _hist_views(case, res):
+        n, kind = pc["step"], pc["kind"]
+        where = (f"call {n + 1} of {len(case['steps'])} on one splitter object (pattern {case['pattern']}, file "
+                 f"{pc['filename']}, slice {pc['slice_no']})")
+        for key, what in _check(pc, pr):
+            yield (key, f"{what} — {where}")
+        fr = pr.get("fresh")
+        if fr is not None and pr.get("ok"):
+            if not fr.get("ok"):
+                continue          # the fresh object fails on its own: reported by the line above / the single-call cases
+            if fr["input"] != pr["input"] or fr["target"] != pr["target"]:
+                yield (f"{kind}-split-depends-on-call-history",
+                       f"{where}: the split differs from the one a fresh object computes for the same sample "
+                       f"(state carried between calls: {res.get('state_changed') or 'not visible in the object'})")
+
+
+def _hist_protocol(case, res):
+    """one `hist` line per splitter object: all its calls, in order, against the model's state-free `runHist`"""
+    for n in range(len(case["insts"])):
+        views = _hist_views(case, res, only_inst=n)
+        if not views:
+            continue
+        pc, pr = views[0]
+        if not pr.get("ok") or len(pr.get("input", [])) != pc["B"]:
+            continue
+        ln, ans, why = _protocol(pc, pr)
+        if ln is None or not ln.startswith("fwd "):
+            continue
+        yield n, pc, "hist " + ln[4:], ans
 
 
 def _gen_slow_case(rng, thorough: bool) -> dict:
@@ -1237,6 +1658,101 @@ def _violations(case, res, seen):
                                                                        ("ok", "err", "msg", "input", "target", "calls", "shape")}})
 
 
+def _hist_violations(case, res, seen):
+    for key, what in _check_history(case, res):
+        if key in seen:
+            continue
+        seen.add(key)
+        yield Violation(key, what, {"case": case, "observed": {
+            "state_changed": res.get("state_changed"),
+            "steps": [{k: r.get(k) for k in ("ok", "err", "msg", "input", "target", "fresh", "calls", "state_changed")}
+                      for r in res.get("steps", [])]}})
+
+
+# ---- determinism across interpreter processes (restart / resume, spawned data-loader workers, separate inference runs)
+def _seeds_seen(res):
+    return {"libc_seeds": [c.get("seed") for c in res.get("calls", [])],
+            "rng_seeds": [e[1] for e in res.get("log", []) if e and e[0] == "seed"]}
+
+
+def _xproc_diff(case, r1, r2):
+    """-> description when the two processes disagree on a seeded split, else None"""
+    if r1.get("err") == "Timeout" or r2.get("err") == "Timeout":
+        return None
+    if bool(r1.get("ok")) != bool(r2.get("ok")):
+        return f"one process returns, the other raises {r1.get('err') or r2.get('err')}"
+    if not r1.get("ok"):
+        return None
+    if r1["input"] != r2["input"] or r1["target"] != r2["target"]:
+        n = sum(1 for a, b in zip(sum(r1["target"], []), sum(r2["target"], [])) if a != b)
+        return (f"the split masks differ in {n} target cells; seeds handed to libc srand / rng.seed: "
+                f"{_seeds_seen(r1)} vs {_seeds_seen(r2)}")
+    if _seeds_seen(r1) != _seeds_seen(r2):
+        return f"same masks on this input but different seeds: {_seeds_seen(r1)} vs {_seeds_seen(r2)}"
+    return None
+
+
+def _xproc(ctx, seen, cases):
+    """the same seeded sample in two interpreters with different PYTHONHASHSEED (fresh processes, spawn-style)"""
+    p1, p2 = _W.call({"level": "hashseed", "kind": "x"}), _W2.call({"level": "hashseed", "kind": "x"})
+    if p1.get("probe") == p2.get("probe"):
+        ctx.notes.append(f"cross-process check: the two interpreters agree on hash(('file1.h5', 3)) ({p1}, {p2}) — salts equal?")
+    n = 0
+    for case, r1 in cases:
+        if r1 is None:
+            r1 = _W.call(case)
+        r2 = _W2.call(case)
+        n += 1
+        d = _xproc_diff(case, r1, r2)
+        ctx.count(json.dumps(["xproc", case], sort_keys=True), _nontrivial(case, r1) if r1.get("ok") else False,
+                  bucket=f"cross-process/{case['kind']}",
+                  sample={"cross_process": {k: case[k] for k in ("kind", "nrow", "ncol", "filename", "slice_no")},
+                          "hashseeds": [_W.hashseed, _W2.hashseed], "equal": d is None})
+        key = f"{case['kind']}-split-differs-between-processes"
+        if d and key not in seen:
+            seen.add(key)
+            yield Violation(key, f"use_seed=True, file {case['filename']}, slice {case['slice_no']}: two interpreter processes "
+                                 f"(PYTHONHASHSEED {_W.hashseed} / {_W2.hashseed}) split the same sample differently — {d}",
+                            {"case": case, "xproc": {"hashseeds": [_W.hashseed, _W2.hashseed]},
+                             "observed": {"process_1": dict(_seeds_seen(r1), target=r1.get("target")),
+                                          "process_2": dict(_seeds_seen(r2), target=r2.get("target"))}})
+    ctx.notes.append(f"cross-process determinism: {n} seeded samples split in two interpreters with PYTHONHASHSEED "
+                     f"{_W.hashseed} / {_W2.hashseed} (hash probes {p1.get('probe')} / {p2.get('probe')})")
+
+
+# forward functions of the engines that pick the split keys themselves: (module, class, joint, passes the mask on)
+ENGINE_FWD_SITES = [("direct.nn.unet.unet_engine", "Unet2dSSLEngine", 0, 0), ("direct.nn.unet.unet_engine", "Unet2dJSSLEngine", 1, 0),
+                    ("direct.nn.varnet.varnet_engine", "EndToEndVarNetSSLEngine", 0, 1),
+                    ("direct.nn.varnet.varnet_engine", "EndToEndVarNetJSSLEngine", 1, 1)]
+_ENGINE_IN: dict = {}
+
+
+def _engine_inputs():
+    if "rows" not in _ENGINE_IN:
+        _ENGINE_IN.update(_W.call({"level": "engine_inputs", "kind": "engine_inputs",
+                                   "sites": [[m, c] for m, c, _, _ in ENGINE_FWD_SITES]}, timeout=120.0))
+    return _ENGINE_IN
+
+
+def _check_engine_inputs(res):
+    if "rows" not in res:
+        yield ("ssl-engine-forward-raises", f"probing the forward functions of the SSL engines fails: {res.get('err')}: {res.get('msg', '')[:200]}")
+        return
+    meta = {c: (j, m) for _, c, j, m in ENGINE_FWD_SITES}
+    for cls, train, ssl, status, kc, mc in res["rows"]:
+        joint, has_mask = meta[cls]
+        uses = bool(train) and (not joint or bool(ssl))
+        want = [1 if uses else 2, (3 if uses else 4) if has_mask else 0]
+        if status != "ok" or [kc, mc] != want:
+            yield ("ssl-engine-forward-input", f"{cls}.forward_function (training={bool(train)}, is_ssl={bool(ssl)}): the network "
+                   f"receives k-space/mask markers {[kc, mc]} ({status}); expected {want} (1/3 = input_kspace / "
+                   "input_sampling_mask, 2/4 = masked_kspace / sampling_mask)")
+
+
+CTOR_RATIOS = [[(0, 1)], [(1, 1)], [(-1, 4)], [(3, 2)], [(1, 2), (1, 1)], [(0, 1), (1, 2)], [(1, 2)], [(1, 5), (7, 10)],
+               [(1, 1000)], [(999, 1000)]]
+
+
 # ==================================================================================================
 def _plan(ctx: Ctx):
     """(kind, level) list of the correspondence phase"""
@@ -1284,7 +1800,10 @@ def _malformed_cases(rng):
 def correspondence(ctx: Ctx):
     rng = ctx.rng
     del _RESULTS[:]
+    del _HIST[:]
     _DIAG_STATS.update(cases=0, differ=0, off_boundary=0)
+    _W.spawn()
+    _W2.spawn()        # second interpreter (other hash salt) starts while the first one works
     cases = _fixed_cases() + _malformed_cases(rng) + [_gen_case(rng, kind, level) for kind, level in _plan(ctx)]
     cases += [_gen_slow_case(rng, ctx.thorough) for _ in range(ctx.budget(10, 80))]
     for kind in ("gauss", "uniform", "half"):
@@ -1345,6 +1864,51 @@ def correspondence(ctx: Ctx):
                     yield {"line": "seed " + _grp([], fn, sl),
                            "impl": (lambda a="ok " + _grp([res["calls"][b]["seed"]], tups[b] or []): a),
                            "nontrivial": True, "bucket": "seed-derivation"}
+        # constructor: admissible ratios
+        ct = _W.call({"level": "ctor", "kind": "ctor", "ratios": CTOR_RATIOS})
+        _CTOR.clear()
+        _CTOR.update(ct)
+        for rs, got in zip(CTOR_RATIOS, ct.get("got", [])):
+            ans = "ok 1" if all(g == "ok" for g in got) else ("err " + got[0]) if len(set(got)) == 1 else "err Mixed"
+            yield {"line": "ctor " + _grp([], [v for pq in rs for v in pq]), "impl": (lambda a=ans: a), "nontrivial": True,
+                   "bucket": "ctor/" + ("valid" if ans == "ok 1" else "rejected")}
+        # which keys the engines' forward functions hand to the network
+        ei = _engine_inputs()
+        meta = {c: (j, m) for _, c, j, m in ENGINE_FWD_SITES}
+        for cls, train, ssl, status, kc, mc in ei.get("rows", []):
+            yield {"line": "eng_in " + _grp([], [meta[cls][0], train, ssl, meta[cls][1]]),
+                   "impl": (lambda a=("ok " + _grp([kc, mc])) if status == "ok" else "err " + status: a), "nontrivial": True,
+                   "bucket": "engine-input/" + cls, "key": ("eng_in", cls, train, ssl)}
+        # the seed derivation in two interpreter processes with different hash salts
+        n_x = 0
+        for case, res in list(_RESULTS):
+            if n_x >= 3 or not (case["level"] == "forward" and case["kind"] == "gauss" and case["use_seed"] and res.get("ok")):
+                continue
+            n_x += 1
+            r2 = _W2.call(case)
+            for w, r in ((_W, res), (_W2, r2)):
+                tups = [e[1] for e in r.get("log", []) if e[0] == "seed"]
+                for b in range(min(case["B"], len(tups), len(r.get("calls", [])))):
+                    fn = [ord(ch) for ch in str(case["filename"][b])]
+                    sl = [ord(ch) for ch in str(case["slice_no"][b])]
+                    yield {"line": "seedx " + _grp([int(w.hashseed)], fn, sl),
+                           "impl": (lambda a="ok " + _grp([r["calls"][b]["seed"]], tups[b] or []): a),
+                           "nontrivial": True, "bucket": f"seed-derivation/process-{w.hashseed}"}
+        # call histories on persistent splitter objects: every object's calls, in order, against the model's `runHist`
+        hists = [_gen_history(rng, pat) for pat in HIST_PATTERNS * ctx.budget(3, 30)]
+        for case in hists:
+            res = _W.call(case)
+            _HIST.append((case, res))
+            ctx.hist[f"history/{case['pattern']}"] = ctx.hist.get(f"history/{case['pattern']}", 0) + 1
+            for k in (f"history/objects={len(case['insts'])}", f"history/data={'3d' if any(s['dims'] == 3 for s in case['steps']) else '2d'}"
+                      + ("+mixed" if len({s['dims'] for s in case['steps']}) > 1 else "")):
+                ctx.hist[k] = ctx.hist.get(k, 0) + 1
+            if "steps" not in res:
+                continue
+            for n, pc, ln, ans in _hist_protocol(case, res):
+                yield {"line": ln, "impl": (lambda a=ans: a), "nontrivial": pc["B"] >= 2,
+                       "bucket": f"history/{pc['kind']}/{case['insts'][n].get('via', 'module')}",
+                       "key": json.dumps([case, n], sort_keys=True)}
     finally:
         if excluded:
             ctx.notes.append(f"cases excluded from the differential comparison (oracle still applies): {excluded}")
@@ -1377,6 +1941,56 @@ def oracle(ctx: Ctx, deep: bool = False):
                              "candidate stream) — observation, not a violation")
         ctx.notes.append("odd acs_region sizes protect 2*(a//2) = a-1 rows/columns (slice centre-a//2 : centre+a//2) — "
                          "observation, the oracle uses the window the code documents")
+        # (a2) call histories of the correspondence phase, more of them when an obligation broke
+        hists = list(_HIST)
+        if deep:
+            for pat in HIST_PATTERNS * ctx.budget(6, 20):
+                c = _gen_history(rng, pat)
+                hists.append((c, _W.call(c)))
+        changed: dict[str, int] = {}
+        for case, res in hists:
+            ctx.count(json.dumps(case, sort_keys=True), len(case["steps"]) >= 2 and "steps" in res,
+                      bucket=f"oracle/history/{case['pattern']}",
+                      sample={"history": case["pattern"], "objects": [(i["kind"], i.get("via")) for i in case["insts"]],
+                              "calls": [(s["inst"], len(s["samples"]), s["dims"]) for s in case["steps"]]})
+            for k in res.get("state_changed", []) or []:
+                changed[k] = changed.get(k, 0) + 1
+            yield from _hist_violations(case, res, seen)
+        ctx.notes.append(f"{len(hists)} call histories on persistent splitter objects (same file+slice with other masks / other "
+                         "ACS masks, other files with the same mask, repeats, batched vs single calls, interleaved objects and "
+                         f"classes, 2-D and 3-D data); state that changed between calls: {changed or 'none'}")
+        # (a3) the same seeded sample in two interpreter processes with different hash salts
+        pick, per_kind = [], {}
+        for case, res in _RESULTS:
+            if (case["level"] == "forward" and case["use_seed"] and res.get("ok") and min(sum(_free(case, b)) for b in range(case["B"])) >= 6
+                    and per_kind.get(case["kind"], 0) < (ctx.budget(5, 40) if case["kind"] != "half" else 2) * (4 if deep else 1)):
+                per_kind[case["kind"]] = per_kind.get(case["kind"], 0) + 1
+                pick.append((case, res))
+        if deep:
+            for kind in ("gauss", "uniform"):
+                for _ in range(ctx.budget(10, 40)):
+                    c = _gen_case(rng, kind, "forward")
+                    c["use_seed"] = 1
+                    pick.append((c, None))
+        yield from _xproc(ctx, seen, pick)
+        # (a4) the documented rejection of ratios outside (0, 1)
+        ct = _CTOR if _CTOR.get("got") and not deep else _W.call({"level": "ctor", "kind": "ctor", "ratios": CTOR_RATIOS})
+        for key, what in _check_engine_inputs(_engine_inputs()):
+            if key not in seen:
+                seen.add(key)
+                yield Violation(key, what, {"case": {"level": "engine_inputs", "kind": "engine_inputs",
+                                                     "sites": [[m, c] for m, c, _, _ in ENGINE_FWD_SITES]},
+                                            "observed": _engine_inputs().get("rows")})
+        ctx.count("engine-inputs", True, bucket="oracle/engine-forward-inputs")
+        for rs, got in zip(CTOR_RATIOS, ct.get("got", [])):
+            valid = all(0 < p < q for p, q in rs)
+            ctx.count(("ctor", tuple(rs)), True, bucket="oracle/ctor/" + ("valid" if valid else "invalid"))
+            bad = [g for g in got if (g == "ok") != valid or (not valid and g != "ValueError")]
+            if bad and "ratio-validation" not in seen:
+                seen.add("ratio-validation")
+                yield Violation("ratio-validation", f"splitters built with ratio(s) {[f'{p}/{q}' for p, q in rs]}: {got} "
+                                f"(documented: ValueError unless every ratio is in (0, 1))",
+                                {"case": {"level": "ctor", "kind": "ctor", "ratios": [rs]}, "observed": got})
         # (b) the pipeline stage as build_mri_transforms builds it, and more split / forward cases (use_seed off included)
         extra = []
         for kind in ("gauss", "uniform", "half"):
@@ -1410,6 +2024,7 @@ def oracle(ctx: Ctx, deep: bool = False):
             yield from _violations(case, res, seen)
     finally:
         _W.close()
+        _W2.close()
 
 
 def replay(rep: dict) -> bool:
@@ -1418,7 +2033,18 @@ def replay(rep: dict) -> bool:
     if not case:
         return True
     try:
+        if case.get("level") == "engine_inputs":
+            return any(True for _ in _check_engine_inputs(_W.call(case, timeout=120.0)))
+        if case.get("level") == "ctor":
+            got = _W.call(case).get("got", [[]])[0]
+            valid = all(0 < p < q for p, q in case["ratios"][0])
+            return any((g == "ok") != valid for g in got)
         res = _W.call(case)
+        if rep.get("xproc"):
+            return _xproc_diff(case, res, _W2.call(case)) is not None
+        if case.get("level") == "history":
+            return any(True for _ in _check_history(case, res))
         return any(True for _ in _check(case, res))
     finally:
         _W.close()
+        _W2.close()
